@@ -19,11 +19,16 @@ import Glom.Model.C17Env
 namespace Glom.C17.Driver
 open Lean Glom.C17
 
+/-- an item the implementation yielded that is not a value of the domain (a SKIP / STOP object
+    that leaked into the stream, a generator …) is kept as a marker no model run produces -/
+def outOfDomain : V := .tup [.list [.tup [.list []]], .int 424242]
+
 partial def vOfJson (j : Json) : Except String V :=
   match j with
   | .null => .ok .none
   | .obj _ =>
     if let .ok i := j.getObjValAs? Int "i" then .ok (.int i)
+    else if let .ok _ := j.getObjVal? "x" then .ok outOfDomain
     else if let .ok (.arr a) := j.getObjVal? "l" then do return .list (← a.toList.mapM vOfJson)
     else if let .ok (.arr a) := j.getObjVal? "t" then do return .tup (← a.toList.mapM vOfJson)
     else .error s!"bad V {j.compress}"
@@ -159,9 +164,11 @@ def finToJson : Fin → Json
   | .raised e => Json.mkObj [("raised", e)]
   | .oof => "oof"
 
+def itemOfJson (j : Json) : Except String V := vOfJson j
+
 def takeOfJson (j : Json) : Except String TakeObs := do
   let items ← (match j.getObjVal? "items" with
-    | .ok (.arr a) => a.toList.mapM vOfJson
+    | .ok (.arr a) => a.toList.mapM itemOfJson
     | _ => pure [])
   return ⟨items, ← finOfJson (← j.getObjVal? "fin"), ← j.getObjValAs? Nat "pulls"⟩
 
@@ -180,7 +187,7 @@ def firstOfJson (j : Json) : Except String FirstObs :=
   match j with
   | .str "default" => .ok .default
   | _ =>
-    if let .ok v := j.getObjVal? "found" then do return .found (← vOfJson v)
+    if let .ok v := j.getObjVal? "found" then do return .found (← itemOfJson v)
     else if let .ok e := j.getObjValAs? String "raised" then .ok (.raised e)
     else .error s!"bad first obs {j.compress}"
 
